@@ -148,6 +148,18 @@ func curGID() int64 {
 	return v
 }
 
+// a per-wait helper goroutine is idle when it is parked on channels (waiting for ctx.Done(), possibly in a select)
+func helperIdle(g gInfo) bool {
+	if !g.helper {
+		return false
+	}
+	switch g.state {
+	case "chan receive", "select", "chan send", "chan receive (nil chan)", "select (no cases)":
+		return true
+	}
+	return false
+}
+
 type gInfo struct {
 	state  string
 	pubsub bool
@@ -437,7 +449,7 @@ func (r *runner) strictQuiescent() bool {
 		if !g.pubsub {
 			continue
 		}
-		if g.state == "sync.Cond.Wait" || (g.helper && g.state == "chan receive") {
+		if g.state == "sync.Cond.Wait" || helperIdle(g) {
 			continue
 		}
 		return false
@@ -483,13 +495,10 @@ func (r *runner) condHolds(th *thread, n int) (holds bool, known bool) {
 	case isConsumer(k):
 		return n > 0, true
 	case isProducer(k):
-		switch r.c.Trk.Kind {
-		case "unlimited":
-			return true, true
-		case "hard":
-			return n < r.c.Trk.Cap, true
-		}
-		return false, false
+		// tracker.cap() > tracker.len() on the implementation's own tracker (cap() is the dynamic soft quota for a
+		// deque built with QueueOptions)
+		cp, ln, _ := r.cont.(*dequeC).d.VerifCapLen()
+		return cp > ln, true
 	}
 	return false, false
 }
@@ -763,6 +772,8 @@ type outcome struct {
 	Final int   `json:"final_len"`
 }
 
+var nInconclusive int
+
 func execCase(run *kit.Run, c Case, verbose bool) {
 	if c.Procs > 0 {
 		defer runtime.GOMAXPROCS(runtime.GOMAXPROCS(c.Procs))
@@ -914,6 +925,7 @@ func execCase(run *kit.Run, c Case, verbose bool) {
 		// no quiescent snapshot was obtained (or the machine stalled): no verdict of any kind from this scenario
 		fmt.Fprintf(os.Stderr, "case %d (%s): inconclusive: %s\n", c.ID, c.Family, r.inconclusive)
 		run.Count("inconclusive")
+		nInconclusive++
 	} else {
 		for _, f := range fails {
 			run.OracleFail(c.ID, f.sig, f.detail, c, out)
@@ -1211,7 +1223,7 @@ func stressCancel(run *kit.Run, c Case, verbose bool) {
 			}
 			quiet := true
 			for _, g := range snapshot() {
-				if g.pubsub && !(g.state == "sync.Cond.Wait" || (g.helper && g.state == "chan receive")) {
+				if g.pubsub && !(g.state == "sync.Cond.Wait" || helperIdle(g)) {
 					quiet = false
 					break
 				}
@@ -1225,7 +1237,7 @@ func stressCancel(run *kit.Run, c Case, verbose bool) {
 				}
 				quiet2 := true
 				for _, g := range snapshot() {
-					if g.pubsub && !(g.state == "sync.Cond.Wait" || (g.helper && g.state == "chan receive")) {
+					if g.pubsub && !(g.state == "sync.Cond.Wait" || helperIdle(g)) {
 						quiet2 = false
 					}
 				}
@@ -1673,6 +1685,76 @@ func dPushClose(r *kit.Rand) Case {
 	return b.c
 }
 
+// Deque with the QueueOptions tracker: cap() is the DYNAMIC soft quota.  Producers park at the soft quota; non-blocking
+// pushes move the quota (burst credit); then single pops: a producer must complete whenever cap() > len().
+func dQuotaProducers(r *kit.Rand) Case {
+	hard := r.Range(3, 6)
+	soft := r.Range(1, hard-1)
+	b := newB("deque", "quota-producers", Trk{Kind: "quota", Hard: hard, Soft: soft, Burst: float64(r.Range(1, 3))})
+	for i := 0; i < soft; i++ {
+		b.do(endPush(r))
+	}
+	for i, m := 0, r.Range(1, 2); i < m; i++ {
+		b.spawn(pick(r, "wpf", "wpb", "dsend"))
+	}
+	for i, n := 0, r.Range(1, 3); i < n; i++ {
+		switch r.Intn(3) {
+		case 0, 1:
+			b.do(endPush(r)) // on burst credit: raises the soft quota
+		case 2:
+			b.do(pick(r, "ff", "fb"))
+		}
+		b.settle()
+	}
+	for i, n := 0, r.Range(1, 3); i < n; i++ {
+		b.do(endPop(r)) // one pop at a time
+		b.settle()
+	}
+	if r.Bool() {
+		b.do("close")
+	}
+	return b.c
+}
+
+// a producer parked on a full queue; the queue is drained completely and a consumer starts to wait before the
+// released producer has re-taken the lock (one P: the new goroutine runs before the woken one): the producer's add
+// must signal nempty
+func qDrainThenWait(r *kit.Rand) Case {
+	c := r.Range(1, 2)
+	b := newB("queue", "drain-then-wait", Trk{Kind: "quota", Hard: c, Soft: c, Burst: 0.5})
+	if r.Chance(1, 3) {
+		b.c.Trk = Trk{Kind: "hard", Cap: c}
+	}
+	for i := 0; i < c; i++ {
+		b.do("add")
+	}
+	np := r.Range(1, 2)
+	for i := 0; i < np; i++ {
+		b.spawn("badd")
+	}
+	b.settle()
+	if r.Bool() {
+		for i := 0; i < c; i++ {
+			b.do("remove")
+		}
+		for i, n := 0, r.Range(1, np); i < n; i++ {
+			b.one("spawn", b.op(pick(r, "wait", "recv")))
+		}
+		b.c.Procs = 1
+	} else {
+		var its []Item
+		for i := 0; i < c; i++ {
+			its = append(its, b.rdo("remove"))
+		}
+		its = append(its, b.rspawn(pick(r, "wait", "recv")))
+		b.race(its...)
+		if r.Bool() {
+			b.c.Procs = 1
+		}
+	}
+	return b.c
+}
+
 func dCancelYounger(r *kit.Rand) Case {
 	b := newB("deque", "cancel-non-oldest", Trk{Kind: "hard", Cap: 1})
 	m := r.Range(2, 3)
@@ -2037,9 +2119,7 @@ func dAlreadyTrue(r *kit.Rand) Case {
 	if r.Bool() {
 		b.do("close")
 		b.spawn(endWait(r))
-		if b.c.Trk.Kind != "quota" {
-			b.spawn(pick(r, "wpf", "wpb"))
-		}
+		b.spawn(pick(r, "wpf", "wpb"))
 	}
 	return b.c
 }
@@ -2069,9 +2149,6 @@ func dRandom(r *kit.Rand) Case {
 			b.do(endPop(r))
 		case 4, 5:
 			k := pick(r, "wf", "wb", "wpf", "wpb", "drecv", "dsend")
-			if b.c.Trk.Kind == "quota" && isProducer(k) {
-				k = "wb"
-			}
 			blockedT = append(blockedT, b.spawn(k))
 		case 6:
 			var its []Item
@@ -2079,9 +2156,6 @@ func dRandom(r *kit.Rand) Case {
 				k := pick(r, "pf", "pb", "of", "ob", "fb", "close", "wf", "wb", "wpb")
 				if k == "close" && r.Chance(2, 3) {
 					k = "pb"
-				}
-				if b.c.Trk.Kind == "quota" && isProducer(k) {
-					k = "wf"
 				}
 				if isBlocking(k) {
 					its = append(its, b.rspawn(k))
@@ -2226,6 +2300,34 @@ func corpus() []Case {
 		b.c.Procs = 1
 		out = append(out, b.c)
 	}
+	// seeded C07-ind3-1: quota deque, producer parked at the soft quota, a push on credit raises the quota, one pop
+	for _, k := range []string{"wpb", "wpf", "dsend"} {
+		b := newB("deque", "corpus-quota-producer", Trk{Kind: "quota", Hard: 4, Soft: 2, Burst: 2})
+		b.do("pb")
+		b.do("pb")
+		b.spawn(k)
+		b.do("pb")
+		b.settle()
+		b.do("of")
+		out = append(out, b.c)
+	}
+	// seeded C07-ind3-2: producer parked on a full queue; drained completely; a consumer waits before the producer runs
+	for c := 1; c <= 2; c++ {
+		for _, k := range []string{"wait", "recv"} {
+			b := newB("queue", "corpus-drain-then-wait", Trk{Kind: "quota", Hard: c, Soft: c, Burst: 0.5})
+			for i := 0; i < c; i++ {
+				b.do("add")
+			}
+			b.spawn("badd")
+			b.settle()
+			for i := 0; i < c; i++ {
+				b.do("remove")
+			}
+			b.one("spawn", b.op(k))
+			b.c.Procs = 1
+			out = append(out, b.c)
+		}
+	}
 	// Close wakes parked consumers
 	{
 		b := newB("queue", "corpus-close", Trk{Kind: "unlimited"})
@@ -2329,6 +2431,7 @@ func main() {
 		w int
 	}
 	fams := []fam{
+		{dQuotaProducers, 3}, {qDrainThenWait, 3},
 		{qCancelYounger, 2}, {qProdCancelYounger, 1}, {qPushClose, 2}, {dPushClose, 2}, {dCancelYounger, 1},
 		{qBurst, 4}, {qPopPush, 3}, {qCloseRace, 3}, {qCancelRace, 3}, {qProducers, 4}, {qIterator, 2}, {qAlreadyTrue, 1}, {qWindow, 1}, {qRandom, 4},
 		{dBurst, 4}, {dPopPush, 3}, {dProducers, 4}, {dCloseRace, 3}, {dCancelRace, 3}, {dAlreadyTrue, 2}, {dWindow, 1}, {dRandom, 4},
@@ -2372,4 +2475,10 @@ func main() {
 		execCase(run, c, false)
 	}
 	run.Finish()
+	if nInconclusive > 0 {
+		// never seen on the unchanged tree: quiescence could not be established (goroutines in states the
+		// snapshot rules do not know, or a machine stall beyond 30 s) - do not let the run count as a pass
+		fmt.Fprintf(os.Stderr, "%d scenario(s) without a verdict (no quiescent snapshot)\n", nInconclusive)
+		os.Exit(3)
+	}
 }
